@@ -10,7 +10,7 @@
 (* Every distinct list is checked against C17_All and printed with the specification's predictions (one JSON line). *)
 EXTENDS Helpers, Json
 
-CONSTANTS MaxMsgs, MaxDepth, MaxTasks, MaxResv, ActTypes, MsgTypes, EarlyFinish, Stack, Mode, Emit, Broken
+CONSTANTS MaxMsgs, MaxMsgsR, MaxDepth, MaxTasks, MaxResv, ActTypes, MsgTypes, EarlyFinish, Stack, Mode, Emit, Broken
 VARIABLES S, resv, nres      \* the list; reserved-and-not-yet-continued positions; how many were ever reserved
 vars == <<S, resv, nres>>
 
@@ -21,7 +21,8 @@ TypeOfAct(a) == S[CHOOSE i \in StartIdx(S, a.u, a.l) : TRUE].ty
 Used(a) == {S[i].lv[Len(a.l) + 1] : i \in {j \in DOMAIN S : S[j].u = a.u /\ IsPrefix(a.l, S[j].lv) /\ Len(S[j].lv) > Len(a.l)}}
            \cup {r.lv[Len(a.l) + 1] : r \in {r \in resv : r.u = a.u /\ Front(r.lv) = a.l}}
 NextPos(a) == Max(Used(a)) + 1
-Room == Len(S) < MaxMsgs
+\* lists with a reserved position (gap / remote sub-task) may be given a smaller bound: they multiply the universe
+Room == Len(S) < (IF nres > 0 THEN MaxMsgsR ELSE MaxMsgs)
 \* action types are interchangeable: a type other than "A" may be used only once some action exists (first-use order)
 TyOK(ty) == ty = "A" \/ \E i \in DOMAIN S : S[i].k = "start"
 \* Stack = TRUE: only an innermost open action acts (the `with` discipline); FALSE: any open action (contexts, threads)
@@ -39,7 +40,7 @@ Log(a, ty) == /\ Room /\ May(a)
 Finish(a, st) == /\ Room
                  /\ IF EarlyFinish /\ ~Stack THEN TRUE ELSE Inner(a)
                  /\ S' = Append(S, Mk(a.u, Append(a.l, NextPos(a)), "end", TypeOfAct(a), st)) /\ UNCHANGED <<resv, nres>>
-Reserve(a) == /\ Room /\ nres < MaxResv /\ Len(a.l) + 2 <= MaxDepth /\ May(a)
+Reserve(a) == /\ Len(S) < MaxMsgsR /\ nres < MaxResv /\ Len(a.l) + 2 <= MaxDepth /\ May(a)
               /\ resv' = resv \cup {[u |-> a.u, lv |-> Append(a.l, NextPos(a))]} /\ nres' = nres + 1 /\ UNCHANGED S
 Continue(r, ty) == /\ Room
                    /\ S' = Append(S, Mk(r.u, Append(r.lv, 1), "start", ty, "started")) /\ resv' = resv \ {r} /\ UNCHANGED nres
@@ -147,5 +148,8 @@ BrokenClaim ==
     [] Broken = 3 -> ~ \E i, j, k \in DOMAIN S : /\ i < j /\ j < k /\ S[i].u = S[k].u /\ S[i].u # S[j].u
                                                  /\ S[i].k = "start" /\ S[k].k = "start" /\ S[i].ty = S[k].ty
                                                  /\ IsPrefix(Front(S[i].lv), Front(S[k].lv))
+    \* 4: "restricting of_type to top-level actions changes nothing" (the change the test-suite of eliot does not notice)
+    [] Broken = 4 -> \A ty \in Types(S) : LET ot == OfType(S, ty) IN
+                        ot.err \/ ot.v = SelectSeq(ot.v, LAMBDA t : Len(S[t.s].lv) = 1)
     [] OTHER -> TRUE
 =============================================================================
